@@ -14,13 +14,12 @@ import (
 )
 
 const (
-	whatRebuild      = "ctx.Rebuild() differs from a fresh api.Build of the current tree"
-	whatWatch        = "watch mode: an edit changes the fresh build result but no watch predicate reports a change"
-	whatTick         = "watch mode: predicates report a dirty path but the watcher's scan never returns it"
-	whatDisk         = "ctx.Rebuild() with write=true leaves an output directory that differs from the returned output files"
-	whatSymlinkKnown = "known-G-watch-misses-symlink-retarget"
-	whatSpurious     = "watch mode: the watch data installed by the build that just finished reports a change on the unedited tree"
-	whatRepeat       = "a second ctx.Rebuild() without any edit differs from the fresh build"
+	whatRebuild  = "ctx.Rebuild() differs from a fresh api.Build of the current tree"
+	whatWatch    = "watch mode: an edit changes the fresh build result but no watch predicate reports a change"
+	whatTick     = "watch mode: predicates report a dirty path but the watcher's scan never returns it"
+	whatDisk     = "ctx.Rebuild() with write=true leaves an output directory that differs from the returned output files"
+	whatSpurious = "watch mode: the watch data installed by the build that just finished reports a change on the unedited tree"
+	whatRepeat   = "a second ctx.Rebuild() without any edit differs from the fresh build"
 )
 
 type canonMsg struct {
@@ -204,12 +203,7 @@ func runHistory(h *history, dir string, es *execStats) []glueFailure {
 		es.steps++
 		var dirty, watched []string
 		beforeFresh := prevFresh
-		symlinkOnly := false
 		if k > 0 {
-			// recorded finding G and its sibling (replayed by stream c09/known): a
-			// step that only re-points a symlink, or only creates the missing
-			// target of a dangling symlink, has no watch record to trip
-			symlinkOnly = pureSymlinkRetarget(h.Steps[k].Ops) || danglingTargetCreated(root, h.Steps[k].Ops)
 			applyOps(root, base, h.Steps[k].Ops)
 			if h.Cfg.Watch {
 				dirty = api.VerifDirtyPaths(ctx)
@@ -243,11 +237,7 @@ func runHistory(h *history, dir string, es *execStats) []glueFailure {
 			if prevFresh != beforeFresh {
 				es.watchChanged++
 				if len(dirty) == 0 {
-					what := whatWatch
-					if symlinkOnly {
-						what = whatSymlinkKnown
-					}
-					fails = append(fails, glueFailure{what: what, stepNo: k, got: "dirty paths: []", expect: "at least one dirty path (fresh build result changed)",
+					fails = append(fails, glueFailure{what: whatWatch, stepNo: k, got: "dirty paths: []", expect: "at least one dirty path (fresh build result changed)",
 						detail: map[string]interface{}{"watched_paths_of_previous_build": relTo(root, watched)}})
 				}
 			}
@@ -355,10 +345,6 @@ func streamGlue(seed uint64, n int, tier string, tmp string) *Stats {
 				st.Histogram["unconfirmed:"+f.what]++
 				continue
 			}
-			if f.what == whatSymlinkKnown {
-				st.Histogram["recognised-known-finding-G:symlink-only step (re-pointed link or dangling target created) not reported dirty"]++
-				continue
-			}
 			in := map[string]interface{}{"options": h.Cfg, "failing_step": f.stepNo, "failing_edit": h.Steps[f.stepNo].Desc, "history": h.Steps[:f.stepNo+1]}
 			if f.detail != nil {
 				in["detail"] = f.detail
@@ -393,44 +379,4 @@ func relTo(root string, ps []string) []string {
 		}
 	}
 	return out
-}
-
-func pureSymlinkRetarget(ops []op) bool {
-	if len(ops) != 2 {
-		return false
-	}
-	return ops[0].Kind == "remove" && ops[1].Kind == "symlink" && ops[0].Path == ops[1].Path
-}
-
-// the step consists of exactly one write, of the file that a currently
-// dangling symlink of the project's src directory points to
-func danglingTargetCreated(root string, ops []op) bool {
-	if len(ops) != 1 || ops[0].Kind != "write" {
-		return false
-	}
-	target := filepath.Join(root, filepath.FromSlash(ops[0].Path))
-	if _, err := os.Lstat(target); err == nil {
-		return false // it exists: an ordinary rewrite
-	}
-	ents, err := os.ReadDir(filepath.Join(root, "src"))
-	if err != nil {
-		return false
-	}
-	for _, e := range ents {
-		if e.Type()&os.ModeSymlink == 0 {
-			continue
-		}
-		link := filepath.Join(root, "src", e.Name())
-		dest, err := os.Readlink(link)
-		if err != nil {
-			continue
-		}
-		if !filepath.IsAbs(dest) {
-			dest = filepath.Join(filepath.Dir(link), dest)
-		}
-		if filepath.Clean(dest) == target {
-			return true
-		}
-	}
-	return false
 }
